@@ -168,14 +168,20 @@ fn sprinkle(r: &mut Rng, v: &mut [f64]) {
 }
 
 fn run_mm(ctx: &mut Ctx, c: &MmCase, r: &mut Rng, expect_refusal: bool) {
-    let mut va = rand_ints(r, numel(&c.da), -9, 9);
-    let mut vb = rand_ints(r, numel(&c.db), -9, 9);
+    // integers, or (half of the non-grid cases) multiples of 1/4: still exact in any summation order, but not integral
+    let frac = !c.cell.starts_with("t") && r.chance(1, 2);
+    let gen = |r: &mut Rng, n: usize| -> Vec<f64> { if frac { (0..n).map(|_| 0.25 * r.int(-9, 9)).collect() } else { rand_ints(r, n, -9, 9) } };
+    let mut va = gen(r, numel(&c.da));
+    let mut vb = gen(r, numel(&c.db));
+    if frac {
+        ctx.count("cases_with_fractional_data", 1);
+    }
     if c.cell.starts_with("nonfinite") {
         sprinkle(r, &mut va);
         sprinkle(r, &mut vb);
         ctx.count("nonfinite_cases", 1);
     }
-    let vc = c.dc.as_ref().map(|d| rand_ints(r, numel(d), -9, 9));
+    let vc = c.dc.as_ref().map(|d| gen(r, numel(d)));
     let ta_: T<f64> = T::from_f64(&c.da, &va);
     let tb_: T<f64> = T::from_f64(&c.db, &vb);
     let tc_: Option<T<f64>> = c.dc.as_ref().map(|d| T::from_f64(d, vc.as_ref().unwrap()));
